@@ -82,7 +82,10 @@ def _gen_one(ctx, item):
     out = []
     for i, r in enumerate(sorted(set(json.loads(l)[5:] for l in lines))):
         if not num and cls in ("xa", "sb") and (i + ctx.seed + (cls == "sb")) % ((6 if cls == "xa" else 12) if ctx.thorough else (3 if cls == "xa" else 6)):
-            continue            # a seed-rotated residue class of the exhaustive enumeration: quick 1/3 of the
+            # ... but every history with a flush immediately followed by compact / reopen+compact stays in
+            # (compact() must take its view from the file as flushed, not from an older snapshot)
+            if not re.search(r'"op": ?"(flush|reopen)"\}, \{[^}]*"op": ?"compact"', json.dumps(json.loads(r)["ops"])):
+                continue            # a seed-rotated residue class of the exhaustive enumeration: quick 1/3 of the
                                 # histories of <= 3 calls, thorough 1/6 of those of <= 4 calls (budget)
         c = json.loads(r)
         c["id"] = f"{cls}{i}"
